@@ -512,6 +512,8 @@ pub struct RunOutcome {
     pub stuck: bool,
     pub history: Vec<Event>,
     pub flags: Vec<(&'static str, bool)>,
+    /// an add_stream call on a parent that a sibling handle was consuming during the call
+    pub add_stream_on_busy_shared_parent: bool,
 }
 
 fn overlap_sig(cfg: &ConcCfg, h: &[Event]) -> (u64, bool, bool, bool) {
@@ -786,6 +788,10 @@ fn quiescent_probe(
 
 pub fn run_once(cfg: &ConcCfg, shard: &mut Shard, keep_sample: bool) -> RunOutcome {
     payload::reset_ledger();
+    // Under Miri a move-out queue runs with a pointer-free payload: the speculative bitwise read
+    // that try_recv discards when it loses the position race would otherwise be reported as a
+    // dangling Box although it is never used (C04 only speaks about values that are returned).
+    payload::set_pod_mode(cfg!(miri) && cfg.fl == Flavour::Mpmc);
     api::reset_ids();
     hist::clock_reset();
     hooks::STALLS_FIRED.store(0, SeqCst);
@@ -1003,6 +1009,7 @@ pub fn run_once(cfg: &ConcCfg, shard: &mut Shard, keep_sample: bool) -> RunOutco
             stuck: true,
             history: Vec::new(),
             flags: Vec::new(),
+            add_stream_on_busy_shared_parent: false,
         };
     }
     let mut logs: Vec<Vec<Event>> = Vec::new();
@@ -1163,6 +1170,7 @@ pub fn run_once(cfg: &ConcCfg, shard: &mut Shard, keep_sample: bool) -> RunOutco
             ("churn_overlap", churn_overlap),
             ("mid_clone_overlap", mid),
         ],
+        add_stream_on_busy_shared_parent: facts.iter().any(|f| f.sibling_overlap),
     }
 }
 
@@ -1431,10 +1439,22 @@ pub fn run_many(p: &ConcParams, shard: &mut Shard) {
         // A stream published at a lapped position (open finding, C10) removes back-pressure for
         // the whole queue: everything else such a run reports is a consequence of that one defect.
         const LAPPED: &str = "add-stream-start:shared-parent-advanced-during-call";
-        if fam == Family::AddStreamShared && vs.iter().any(|v| v.sig == LAPPED) {
+        if fam == Family::AddStreamShared && out.add_stream_on_busy_shared_parent && !vs.is_empty() {
+            // Known call shape: snapshot and publication of the new stream are separate steps, the
+            // parent advanced in between (a sibling receive overlapped the call). The new stream may
+            // start lapped or be lapped right after its first value; either way back-pressure is gone
+            // for the whole queue and every monitor can fire. One finding, one signature.
             let before = vs.len();
-            vs.retain(|v| v.sig == LAPPED);
-            shard.stat("suppressed_as_consequence_of_lapped_add_stream", (before - vs.len()) as u64);
+            let mut first = vs.remove(0);
+            if let Some(i) = vs.iter().position(|v| v.sig == LAPPED) {
+                first = vs.remove(i);
+            }
+            first.detail = format!("[add_stream overlapped by a sibling consumer of the parent stream] {}", first.detail);
+            first.sig = LAPPED.to_string();
+            first.prop = "C10";
+            first.rule = "add-stream-start";
+            vs = vec![first];
+            shard.stat("suppressed_as_consequence_of_lapped_add_stream", (before - 1) as u64);
         }
         if !vs.is_empty() {
             let replay = J::obj()
